@@ -1276,3 +1276,60 @@ def t8(facts, tier):
                  f"container is dropped (double free on truncated or malformed input)")
     if not any_alloc:
         yield ob(["C06"], "T8", "no-raw-allocation", "pass", "", "savefile performs no raw allocation", nontrivial=False)
+
+
+# ---------------------------------------------------------------------------------------------
+# T9: stream value minus constant needs a lower-bound reject guard
+
+@rule("T9", ["C06", "C14"], floor=0, doc="on the load paths a value read from the stream is only decreased by a constant after a reject-guard has "
+      "established that it is at least that constant (otherwise `n - C` underflows for small n: a panic in debug builds, a huge "
+      "allocation in release builds)")
+def t9(facts, tier):
+    from ..flow import parent_map
+    n_sites = 0
+    for f in reader_fns(facts):
+        if f["crate"] != "savefile" or not f.get("body"):
+            continue
+        tv = None
+        for x in walk(f["body"]):
+            if x.get("k") != "Bin" or x.get("op") != "Sub":
+                continue
+            l, r = peel_block(peel(x["l"])), peel_block(peel(x["r"]))
+            while l.get("k") == "Cast":
+                l = peel_block(peel(l["e"]))
+            c = r.get("int") if r.get("k") == "Lit" else (r.get("val") if r.get("k") in ("Const", "ConstBlock") else None)
+            if l.get("k") != "Var" or not isinstance(c, int) or c <= 0:
+                continue
+            if tv is None:
+                tv = tainted_vars(f)
+            if l["v"] not in tv:
+                continue
+            # only direct stream values (bound from a read), not lengths of buffers we sized ourselves
+            n_sites += 1
+            v = l["v"]
+            guard = False
+            for y in walk(f["body"]):
+                if y.get("k") != "If":
+                    continue
+                cnd = peel_block(peel(y["c"]))
+                if cnd.get("k") != "Bin" or cnd["op"] not in ("Lt", "Le", "Gt", "Ge"):
+                    continue
+                a, b = peel_block(peel(cnd["l"])), peel_block(peel(cnd["r"]))
+                def cst(e):
+                    return e.get("int") if e.get("k") == "Lit" else (e.get("val") if e.get("k") in ("Const", "ConstBlock") else None)
+                rejects = any(z.get("k") == "Return" for z in walk(y["t"]))
+                if not rejects:
+                    continue
+                if a.get("k") == "Var" and a["v"] == v and isinstance(cst(b), int):
+                    if (cnd["op"] == "Lt" and cst(b) >= c) or (cnd["op"] == "Le" and cst(b) >= c - 1):
+                        guard = True
+                if b.get("k") == "Var" and b["v"] == v and isinstance(cst(a), int):
+                    if (cnd["op"] == "Gt" and cst(a) >= c) or (cnd["op"] == "Ge" and cst(a) >= c - 1):
+                        guard = True
+            key = f"{f['id']}:{v.split('#')[0]}-{c}"
+            yield ob(["C06", "C14"], "T9", key, "pass" if guard else "violation", where(f, x),
+                     f"{f['id']}: `{v.split('#')[0]} - {c}` follows a guard that rejects values below {c}" if guard else
+                     f"{f['id']}: `{v.split('#')[0]} - {c}` is computed on a value read from the stream with no guard rejecting values below {c}: "
+                     f"a stored value of 0..{c - 1} underflows (panic in debug builds, an enormous size in release builds) instead of yielding Err")
+    if n_sites == 0:
+        yield ob(["C06", "C14"], "T9", "no-stream-value-minus-constant", "pass", "", "no value read from the stream is decreased by a constant", nontrivial=False)
